@@ -74,6 +74,7 @@ type Engine struct {
 	splitMax int
 	bounds   map[string]bool
 	optRecs  map[*Obj]*StructV
+	cfgFile  *cfgFileEnv
 }
 
 // Event is a recorded stub side effect (log line, Fail, hook call).
